@@ -290,7 +290,8 @@ class World:
         self.handler_errors: list[str] = []
         self.handled: list[tuple[str, str]] = []  # (message type, row id) in handling order
         self.bus_log: list[Any] = []
-        self.signal_seen: list[str | None] = []  # durable stage status when each SignalStage was handled
+        self.signal_seen: list[str | None] = []
+        self.handler_calls: list[tuple[str, str, str]] = []  # durable stage status when each SignalStage was handled
         self._peek: sqlite3.Connection | None = None
         self._in_deliver = False
         self.workflow_id: str | None = None
@@ -383,7 +384,22 @@ class World:
                 HOOKS.handler_base = HOOKS.commits
 
         self.processor._handle_message = _handle_message  # type: ignore[method-assign]
+        # count handler invocations per message id (C09 observe_at)
+        for mt, h in list(self.processor._handlers.items()):
+            self._wrap_handler(h)
         self.orchestrator = Orchestrator(self.queue, self.store)
+
+    def _wrap_handler(self, h: Any) -> None:
+        orig = h.handle
+        world = self
+
+        def handle(message: Any, _orig: Any = orig) -> None:
+            mid = getattr(message, "message_id", None)
+            world.handler_calls.append((str(mid), type(message).__name__, "enter"))
+            _orig(message)
+            world.handler_calls.append((str(mid), type(message).__name__, "return"))
+
+        h.handle = handle
 
     def restart(self, expire_locks: bool = True) -> None:
         """Kill -9 and start again: all in-memory state dropped, uncommitted work rolled back."""
@@ -692,6 +708,19 @@ def wl_backjump(times: int = 1, max_jumps: int | None = None, sibling: bool = Fa
     return workflow(st, context=ctx)
 
 
+def wl_joinjump(times: int = 1) -> Workflow:
+    """a -> {b1, b2} -> c (a join that jumps back to a `times` times) -> z."""
+    return workflow(
+        [
+            stage("a"),
+            stage("b1", ["a"]),
+            stage("b2", ["a"]),
+            stage("c", ["b1", "b2"], tasks={"t1": {"kind": "jump", "target": "a", "times": times}}),
+            stage("z", ["c"]),
+        ]
+    )
+
+
 def wl_forward_jump() -> Workflow:
     """s jumps forward over the diamond (p,q -> m) to e."""
     return workflow(
@@ -742,6 +771,7 @@ WORKLOADS: dict[str, Callable[[], Workflow]] = {
     "backjump1": lambda: wl_backjump(1),
     "backjump1sib": lambda: wl_backjump(1, sibling=True),
     "fwdjump": wl_forward_jump,
+    "joinjump": wl_joinjump,
     "suspend": wl_suspend,
     "mutex": wl_mutex,
     "choice": wl_choice,
